@@ -493,6 +493,19 @@ def main():
                 violations.append((p, " no-failing-input-found"))
             log("[%s] %s: %d cases executed at %.1fs" % (prop, famname, len(all_cases), time.time() - t0))
             bad_corr, bad_chk, errs = evaluate(fam, all_cases, scratch)
+            if fam.get("strict_chk"):
+                # the excused checker tolerates the schedule windows listed in KNOWN_FINDINGS.json; every case
+                # that only the strict checker rejects is an occurrence of such a finding
+                _, bad_strict, errs2 = evaluate(dict(fam, chk=fam["strict_chk"], corr=fam["strict_chk"]), all_cases, scratch, tag="strict")
+                errs += errs2
+                for i in bad_strict:
+                    if i in bad_chk:
+                        continue
+                    for kf in known:
+                        if kf.get("status") == "known" and kf.get("property") == prop and kf.get("signature", {}).get("family") == famname:
+                            line = "KNOWN-FINDING: property=%s %s" % (prop, kf["what"])
+                            if line not in known_lines:
+                                known_lines.append(line)
             log("[%s] %s: model evaluated at %.1fs" % (prop, famname, time.time() - t0))
             for e in errs:
                 log("coq evaluation error:", e["error"])
